@@ -760,8 +760,10 @@ class Response(_SansIOResponse):
             # wsgiref.
             if "date" not in self.headers:
                 self.headers["Date"] = http_date()
-            is206 = self._process_range_request(environ, complete_length, accept_ranges)
-            if not is206 and not is_resource_modified(
+            # The validators are evaluated before a Range header is
+            # considered, a partial response is only for a request
+            # that would otherwise get the complete one.
+            if not is_resource_modified(
                 environ,
                 self.headers.get("etag"),
                 None,
@@ -771,6 +773,8 @@ class Response(_SansIOResponse):
                     self.status_code = 412
                 else:
                     self.status_code = 304
+            else:
+                self._process_range_request(environ, complete_length, accept_ranges)
             if (
                 self.automatically_set_content_length
                 and "content-length" not in self.headers
